@@ -101,7 +101,9 @@ class Engine:
         self.max_paths = 20000
 
     # ------------------------------------------------------------------ obligations
-    def oblige(self, st, name, goal, kind='post', line=None, expect='unsat', note=''):
+    def oblige(self, st, name, goal, kind='post', line=None, expect='unsat', note='', props=None):
+        if isinstance(goal, tuple):
+            goal, props = goal[0], goal[1]
         oid = f'{self.cur_root}/{name}'
         # make ids unique but stable (path-ordinal suffix)
         n = sum(1 for o in self.obligations if o.id == oid or o.id.startswith(oid + '#'))
@@ -109,7 +111,7 @@ class Engine:
             oid = f'{oid}#{n}'
         if isinstance(goal, bool):
             goal = z3.BoolVal(goal)
-        o = Obligation(oid, self.cur_root, kind, line, st.pc, goal, expect, self.cur_props, note)
+        o = Obligation(oid, self.cur_root, kind, line, st.pc, goal, expect, tuple(props) if props else self.cur_props, note)
         self.obligations.append(o)
         return o
 
